@@ -63,7 +63,7 @@ func GraphModel(t *rapid.T, o GraphOpts) *Model {
 	allTypes = append(allTypes, gObjTypes[:nObj]...)
 	useCond := false
 	c := &graphCtx{t: t, o: o, rels: gRelNames[:nRel]}
-	if o.Depth3 && !o.SmallModels {
+	if o.Depth3 {
 		c.depth3 = rapid.IntRange(0, 5).Draw(t, "depth3") == 0
 	}
 	for i := 0; i < nObj; i++ {
